@@ -56,7 +56,7 @@ func (sx *server) handleDiscover(yl *yl.Ylog, src, dst net.IP, duid d.Duid, msg 
 		yl.Printf("DISCOVER: Failed to find a free IP")
 		return
 	}
-	if err := sx.ipdb.UpdateClient(offer, duid, 15*time.Second); err != nil {
+	if err := sx.ipdb.HoldClient(offer, duid, 15*time.Second); err != nil {
 		yl.Printf("DISCOVER: Failed to update temporarily lease during discovery")
 		return
 	}
